@@ -291,6 +291,35 @@ def run_case(c):
         if e > 1e-8 * abs(want):
             bad("gruneisen_closed_form", "mode Grueneisen parameter differs from the closed form %.10g by %.3e (mesh symmetry %s)" % (want, e, sym), sym=sym)
         out[sym] = int(m.sum())
+    # the same closed form through the band-structure route and with the strain increment given explicitly (= (V+ - V-)/V0, what the default works
+    # out by itself): four combinations of route x explicit/default increment
+    ds_ = (vols[1] - vols[2]) / vols[0]
+    prng_ = np.random.default_rng(c["seed"] + 3)
+    path_ = np.array([prng_.uniform(-0.5, 0.5, 3) + t * np.array([0.31, 0.17, 0.11]) for t in np.linspace(0, 1, 5)])
+    for route in ("mesh", "band"):
+        for ds in (None, ds_):
+            try:
+                grb = PhonopyGruneisen(phs[0], phs[1], phs[2], delta_strain=ds)
+                if route == "mesh":
+                    grb.set_mesh(c["mesh"], is_mesh_symmetry=False)
+                    _, _, fb, _, gb = grb.get_mesh()
+                    fb, gb = np.array(fb), np.array(gb)
+                else:
+                    grb.set_band_structure([path_])
+                    _, _, fb, _, gb = grb.get_band_structure()
+                    fb, gb = np.array(fb[0]), np.array(gb[0])
+            except Exception as e_:
+                bad("gruneisen_exception", "PhonopyGruneisen(delta_strain=%r) %s route raised %r" % (ds, route, e_), route=route, explicit_strain=ds is not None)
+                continue
+            mb = fb > 1e-3 * np.abs(fb).max()
+            for iq in range(len(fb)):  # same don't-care band as above, from the frequencies of this route
+                lam_ = (fb[iq] / phs[0].unit_conversion_factor) ** 2
+                dd_ = np.abs(lam_[:, None] - lam_[None, :]) + np.eye(len(lam_)) * 1e9
+                mb[iq] &= ~((dd_ > 1e-9) & (dd_ < 5e-4)).any(axis=1)
+            obs["n_grun_route_%s_%s" % (route, "explicit" if ds is not None else "default")] = int(mb.sum())
+            if mb.any() and np.abs(gb[mb] - want).max() > 1e-8 * abs(want):
+                bad("gruneisen_closed_form", "%s route, delta_strain=%s: mode Grueneisen parameter %.10g differs from the closed form %.10g" % (
+                    route, "default" if ds is None else "%.6g (explicit)" % ds, float(gb[mb][np.argmax(np.abs(gb[mb] - want))]), want), route=route, explicit_strain=ds is not None)
     # volume-dependent pair model: reduced vs full mesh
     phs2 = []
     for s in (1.0, (1 + eps) ** (1 / 3.0), (1 - eps) ** (1 / 3.0)):
